@@ -470,3 +470,15 @@ def dropped_deferreds(run, rid, units, what):
                        message='%s mentions %s without yielding it' % (u.short, src(st.value)[:60]))
         run.ob(rid, u, u.node, 'no dropped Deferred in %s' % u.short, True)
     return n
+
+
+def borrow(run, fn, new_prefix):
+    """run a rule function of another property and file its obligations / findings under new_prefix"""
+    n_ob, n_f, n_u = len(run.obligations), len(run.findings), len(run.undecided)
+    fn(run)
+    for o in run.obligations[n_ob:]:
+        o['rule'] = new_prefix + '/' + o['rule']
+    for f in run.findings[n_f:]:
+        f.rule = new_prefix + '/' + f.rule
+    for u in run.undecided[n_u:]:
+        u['rule'] = new_prefix + '/' + u['rule']
